@@ -219,14 +219,14 @@ def Core.outcome (core : Core) (n tok : Nat) : Out :=
   if core.rej.contains tok then .err 9 else core.script.getD n core.dflt
 
 /-- the innermost continuation (`doRountrip` / `handleRequest` / `executeItem`): look the handler up
-    from the operation of the message IT IS GIVEN, run it on that message; `h`: the request header
-    the handler's context reports. -/
-def coreRun (k : Kind) (core : Core) (h : Nat) : Next := fun m c s =>
+    from the operation of the message IT IS GIVEN, run it on that message; `h m`: the request header
+    the handler's context reports when the innermost continuation is given message `m`. -/
+def coreRun (k : Kind) (core : Core) (h : Msg → Nat) : Next := fun m c s =>
   if routed k m.op then
     let o := core.outcome s.calls m.tok
     (coreResult k o m.op,
       { s with calls := s.calls + 1,
-               trace := s.trace ++ [.core s.calls (handlerOf k m.op) m c h o] })
+               trace := s.trace ++ [.core s.calls (handlerOf k m.op) m c (h m) o] })
   else (notRouted k m.op, s)
 
 /-! ### the three ways of running a chain -/
@@ -274,11 +274,28 @@ def oldNext (chain : List Stage) (core : Next) (orig : Option Msg) : Nat → Nex
       runStage (oldNext chain core orig fuel) chain[s.cur] fm c { s with cur := s.cur + 1 }
     else core fm c s
 
-/-- the request header reported by the handler's context: the server stores the header of the
-    request given to `HandleRequest` in the context before the chain runs (`newBatchContext`). -/
-def hdrOf : Kind → Msg → Nat
-  | .client, _ => 0
-  | _, m0 => m0.tok
+/-- WHERE the server makes the batch context whose header `GetRequestHeader(ctx)` /
+    `GetProtocolVersion(ctx)` report to the operation handlers (kmipserver/router.go):
+    * `entry`: `HandleRequest` does, from the request it is given, BEFORE the message chain runs
+      (the code at /repo HEAD): handlers are told the header of the ORIGINAL message even when a
+      message middleware passed another one on;
+    * `core`: the core handler `handleRequest` does, from the message it is given (the proposed
+      repair).
+    The engine determines which one the real code is by probing it. -/
+inductive HdrMode where
+  | entry | core
+  deriving Repr, DecidableEq, Inhabited
+
+/-- the request header the handler's context reports, as a function of the message the innermost
+    continuation is given. The item chain cannot replace the message: its items are executed under
+    the header of the message `handleRequest` is executing. The client has no such context. -/
+def hdrFn : HdrMode → Kind → Msg → Msg → Nat
+  | _, .client, _ => fun _ => 0
+  | .core, .srvmsg, _ => fun m => m.tok
+  | _, _, m0 => fun _ => m0.tok
+
+/-- the code at /repo HEAD. -/
+def hdrOf (k : Kind) (m0 : Msg) : Msg → Nat := hdrFn .entry k m0
 
 /-- what the entry point does with the pair returned by the outermost stage (`op0`: the operation
     of the request the entry point was given).
@@ -315,6 +332,142 @@ def runImpl (k : Kind) (chain : List Stage) (core : Core) (m0 : Msg) (c0 : Nat) 
 def runOld (k : Kind) (chain : List Stage) (core : Core) (m0 : Msg) (c0 : Nat) : Run :=
   mkRun k m0.op (oldNext chain (coreRun k core (hdrOf k m0)) (if k = .srvmsg then some m0 else none)
     (chain.length + 1) m0 c0 St.init)
+
+/-- the same with the header mode as a parameter (`runImpl = runImplH .entry`). -/
+def runImplH (hm : HdrMode) (k : Kind) (chain : List Stage) (core : Core) (m0 : Msg) (c0 : Nat) :
+    Run :=
+  mkRun k m0.op (nextFrom chain (coreRun k core (hdrFn hm k m0)) 0 m0 c0 St.init)
+
+def runSpecH (hm : HdrMode) (k : Kind) (chain : List Stage) (core : Core) (m0 : Msg) (c0 : Nat) :
+    Run :=
+  mkRun k m0.op (specNext (coreRun k core (hdrFn hm k m0)) chain m0 c0 St.init)
+
+/-! ### registration -/
+
+/-- `exec.Use(a…); exec.Use(b…)` / `WithMiddlewares(a…), WithMiddlewares(b…)` /
+    `exec.BatchItemUse(…)`: every call appends its arguments (`append(o.middlewares, m...)`). -/
+def registered (calls : List (List Stage)) : List Stage := calls.foldl (· ++ ·) []
+
+/-! ### several items: the batch loop enters the item chain once PER ITEM -/
+
+/-- `handleRequest`'s loop `for i := range req.BatchItem { … executeItemWithMiddleware(ctx, &item) }`
+    with no message middleware: every item goes through `biNextFrom(0)` with the same context; the
+    state (trace, handler invocation count) is threaded from one item to the next. `h0`: the header
+    of the request. Returns the response items in order. -/
+def runItems (chain : List Stage) (core : Core) (h0 : Nat) (c : Nat) : List Msg → St → List R × St
+  | [], s => ([], s)
+  | it :: rest, s =>
+    let x := nextFrom chain (coreRun .srvitem core (fun _ => h0)) 0 it c s
+    let y := runItems chain core h0 c rest x.2
+    (finish .srvitem it.op x.1 :: y.1, y.2)
+
+def runBatchItems (chain : List Stage) (core : Core) (h0 c0 : Nat) (items : List Msg) :
+    List R × List Event :=
+  let x := runItems chain core h0 c0 items St.init
+  (x.1, x.2.trace)
+
+/-- the specification of the same: plain nested composition per item. -/
+def specItems (chain : List Stage) (core : Core) (h0 : Nat) (c : Nat) : List Msg → St → List R × St
+  | [], s => ([], s)
+  | it :: rest, s =>
+    let x := specNext (coreRun .srvitem core (fun _ => h0)) chain it c s
+    let y := specItems chain core h0 c rest x.2
+    (finish .srvitem it.op x.1 :: y.1, y.2)
+
+def specBatchItems (chain : List Stage) (core : Core) (h0 c0 : Nat) (items : List Msg) :
+    List R × List Event :=
+  let x := specItems chain core h0 c0 items St.init
+  (x.1, x.2.trace)
+
+/-! ### both server chains installed -/
+
+/-- the innermost continuation of the message chain when an item chain is installed too:
+    `handleRequest` on a one-item message runs the item chain on that item, under the header `h m`
+    of … (see `HdrMode`), and returns a response message holding the finished item. -/
+def bothCore (ichain : List Stage) (core : Core) (h : Msg → Nat) : Next := fun m c s =>
+  let x := nextFrom ichain (coreRun .srvitem core (fun _ => h m)) 0 m c s
+  (finish .srvitem m.op x.1, x.2)
+
+def runBoth (hm : HdrMode) (mchain ichain : List Stage) (core : Core) (m0 : Msg) (c0 : Nat) : Run :=
+  mkRun .srvmsg m0.op (nextFrom mchain (bothCore ichain core (hdrFn hm .srvmsg m0)) 0 m0 c0 St.init)
+
+def runBothSpec (hm : HdrMode) (mchain ichain : List Stage) (core : Core) (m0 : Msg) (c0 : Nat) :
+    Run :=
+  mkRun .srvmsg m0.op
+    (specNext (fun m c s =>
+        let x := specNext (coreRun .srvitem core (fun _ => hdrFn hm .srvmsg m0 m)) ichain m c s
+        (finish .srvitem m.op x.1, x.2)) mchain m0 c0 St.init)
+
+/-! ### concurrency: a memory cell shared with other goroutines -/
+
+/-- `St.cur` read as a memory cell OUTSIDE the call (a field of the `Client` / `BatchExecutor`, a
+    package variable) that other goroutines running the same chain may overwrite at any moment:
+    `env n` is what they have made of it by the time the trace of THIS run has `n` events. The
+    `…P` functions are the chain code run under such interference: after every event the cell holds
+    whatever the environment put there. -/
+def St.logP (env : Nat → Nat) (s : St) (e : Event) : St :=
+  { trace := s.trace ++ [e], calls := s.calls, cur := env (s.trace.length + 1) }
+
+def doCallP (env : Nat → Nat) (next : Next) (id : Nat) (m : Msg) (c : Nat) (s : St) : R × St :=
+  let x := next m c (s.logP env (.call id m c))
+  (x.1, x.2.logP env (.back id x.1))
+
+def runActsP (env : Nat → Nat) (next : Next) (id : Nat) : List Act → Msg → Nat → R → St → R × St
+  | [], _, _, last, s => (last, s)
+  | .setMsg t :: as, m, c, last, s => runActsP env next id as { m with tok := t.app m.tok } c last s
+  | .setOp o :: as, m, c, last, s => runActsP env next id as { m with op := o } c last s
+  | .setCtx t :: as, m, c, last, s => runActsP env next id as m (t.app c) last s
+  | .call :: as, m, c, _, s =>
+    let x := doCallP env next id m c s
+    runActsP env next id as m c x.1 x.2
+  | .callIfFail :: as, m, c, last, s =>
+    if last.isFail then
+      let x := doCallP env next id m c s
+      runActsP env next id as m c x.1 x.2
+    else runActsP env next id as m c last s
+  | .ret rt :: _, _, _, last, s => (rt.eval last, s)
+  | .retIfFail rt :: as, m, c, last, s =>
+    if last.isFail then (rt.eval last, s) else runActsP env next id as m c last s
+  | .retIfOk rt :: as, m, c, last, s =>
+    if last.isFail then runActsP env next id as m c last s else (rt.eval last, s)
+
+def runStageP (env : Nat → Nat) (next : Next) (st : Stage) : Next := fun m c s =>
+  let x := runActsP env next st.id st.body m c R.nil (s.logP env (.enter st.id m c))
+  (x.1, x.2.logP env (.exit st.id x.1))
+
+def coreRunP (env : Nat → Nat) (k : Kind) (core : Core) (h : Msg → Nat) : Next := fun m c s =>
+  if routed k m.op then
+    let o := core.outcome s.calls m.tok
+    (coreResult k o m.op,
+      { trace := s.trace ++ [.core s.calls (handlerOf k m.op) m c (h m) o], calls := s.calls + 1,
+        cur := env (s.trace.length + 1) })
+  else (notRouted k m.op, s)
+
+/-- the CURRENT chain code under interference: the index `i` is a parameter of the closure, the
+    shared cell is never consulted. -/
+def nextFromP (env : Nat → Nat) (chain : List Stage) (core : Next) (i : Nat) : Next := fun m c s =>
+  if h : i < chain.length then runStageP env (nextFromP env chain core (i + 1)) chain[i] m c s
+  else core m c s
+termination_by chain.length - i
+
+def runImplP (env : Nat → Nat) (k : Kind) (chain : List Stage) (core : Core) (m0 : Msg) (c0 : Nat) :
+    Run :=
+  mkRun k m0.op (nextFromP env chain (coreRunP env k core (hdrOf k m0)) 0 m0 c0
+    { trace := [], calls := 0, cur := env 0 })
+
+/-- a FAULTY variant for contrast: the cursor of the pre-fix code kept in the shared cell (e.g. a
+    field of the `Client`): `oldNext` reads `s.cur`, which the environment overwrites. -/
+def oldNextP (env : Nat → Nat) (chain : List Stage) (core : Next) : Nat → Next
+  | 0 => fun _ _ s => (⟨none, some 9999⟩, s)
+  | fuel + 1 => fun m c s =>
+    if h : s.cur < chain.length then
+      runStageP env (oldNextP env chain core fuel) chain[s.cur] m c { s with cur := s.cur + 1 }
+    else core m c s
+
+def runSharedCursorP (env : Nat → Nat) (k : Kind) (chain : List Stage) (core : Core) (m0 : Msg)
+    (c0 : Nat) : Run :=
+  mkRun k m0.op (oldNextP env chain (coreRunP env k core (hdrOf k m0)) (chain.length + 1) m0 c0
+    { trace := [], calls := 0, cur := env 0 })
 
 /-! ### specification vocabulary for the corollaries -/
 
